@@ -786,6 +786,7 @@ void run_from(Ctx& c, int only) {
   }
 }
 
+#ifndef NOPV_NO_MAIN
 int main(int argc, char** argv) {
   Ctx c;
   int only = -1;
@@ -803,3 +804,4 @@ int main(int argc, char** argv) {
   c.flush();
   return 0;
 }
+#endif  // NOPV_NO_MAIN
